@@ -4,6 +4,7 @@ use crate::rng::Rng;
 
 pub mod c01;
 pub mod c02;
+pub mod c03;
 pub mod c14;
 pub mod c19;
 pub mod c05;
@@ -14,7 +15,7 @@ pub mod c10;
 
 /// run the real code for one request; None = unknown function
 pub fn run(r: &Req) -> Option<String> {
-    c01::run(r).or_else(|| c02::run(r)).or_else(|| c14::run(r)).or_else(|| c19::run(r)).or_else(|| c06::run(r)).or_else(|| c07::run(r)).or_else(|| c10::run(r))
+    c01::run(r).or_else(|| c02::run(r)).or_else(|| c03::run(r)).or_else(|| c14::run(r)).or_else(|| c19::run(r)).or_else(|| c06::run(r)).or_else(|| c07::run(r)).or_else(|| c10::run(r))
 }
 
 /// (request lines, whether the enumerated part was exhaustive over its stated bounds)
@@ -22,6 +23,7 @@ pub fn generate(prop: &str, tier: &str, rng: &mut Rng) -> (Vec<String>, bool) {
     match prop {
         "C01" => c01::generate(tier, rng),
         "C02" => c02::generate(tier, rng),
+        "C03" => c03::generate(tier, rng),
         "C14" => c14::generate(tier, rng),
         "C19" => c19::generate(tier, rng),
         "C05" => c05::generate(tier, rng),
@@ -37,6 +39,7 @@ pub fn rule(prop: &str, tier: &str) -> String {
     match prop {
         "C01" => c01::rule(tier),
         "C02" => c02::rule(tier),
+        "C03" => c03::rule(tier),
         "C14" => c14::rule(tier),
         "C19" => c19::rule(tier),
         "C05" => c05::rule(tier),
@@ -80,6 +83,7 @@ pub fn valid_case(prop: &str, r: &Req) -> bool {
     match prop {
         "C01" => c01::valid_case(r),
         "C02" => c02::valid_case(r),
+        "C03" => c03::valid_case(r),
         "C14" => c14::valid_case(r),
         "C19" => c19::valid_case(r),
         "C05" => c05::valid_case(r),
